@@ -23,6 +23,7 @@ SPEC = VERIF / 'spec'
 WORK_ROOT = VERIF / '.work'
 JAR = '/opt/veriftools/tla/tla2tools.jar'
 CP = JAR + ':/opt/veriftools/tla/CommunityModules-deps.jar'
+TLAPS_LIB = '/opt/veriftools/tlapm/lib/tlapm/stdlib'
 
 _workdir: Optional[Path] = None
 
@@ -180,7 +181,7 @@ def run_tlc(module: str,
     # kernel (measured: 10 s vs 3.6 s for 8 JVMs)
     java = ['java'] + gc + [f'-Xmx{heap}', '-Xms256m', '-Xss64m',
                             f'-XX:ActiveProcessorCount={max(2, workers)}',
-                            f'-DTLA-Library={SPEC}']
+                            f'-DTLA-Library={SPEC}:{TLAPS_LIB}']
     if workers == 1 and not long_run:
         # short single-threaded runs (trace validation, exports) are
         # dominated by JIT warm-up: C1 only halves their CPU time
